@@ -3,6 +3,7 @@
    Gen/MetricsProg.v), Model/Conc.v (goroutines over shared pools), Model/Footprint.v (package-level state). *)
 From Coq Require Import List ZArith NArith Bool.
 From GV Require Import Model.Metrics Proofs.MetricsP Gen.MetricsProg Inst.Inst_C10.
+From GV Require Import Model.Conc Proofs.ConcP Model.Footprint Proofs.FootprintP Gen.Globals.
 Import ListNotations.
 Local Open Scope Z_scope.
 
@@ -69,12 +70,49 @@ Theorem C10_min_load_compare_store_refuted :
     all_done (snd c) = true /\ fst c 7%N <> minZ (-1) (concat (map (recorded_total 7%N) ts)).
 Proof. exact min_lcs_refuted. Qed.
 
+(* ---- every call returns what it returns when run alone ----
+   Goroutines that share only pools (any number, any schedule, any choice of which pooled object a Get receives,
+   including a new one): under the pool discipline (C09: what Put stores is observationally what New builds) and if
+   the local computations see their objects only up to observational equivalence, every goroutine that has finished
+   holds exactly the result of running its steps alone from empty pools. *)
+Theorem C10_results_sequential :
+  forall (obj res : Type) (fresh : obj) (eqv : obj -> obj -> Prop) (reset : obj -> obj),
+    (forall o, eqv (reset o) fresh) -> eqv fresh fresh ->
+    forall sh0 progs sched,
+      (forall p o, In o (pools obj sh0 p) -> eqv o fresh) ->
+      (forall pr, In pr progs -> prog_respects obj res eqv (fst pr)) ->
+      let c := grun obj res fresh reset (sh0, map (fun pr => gstart obj res (fst pr) (snd pr)) progs) sched in
+      forall i t pr, nth_error (snd c) i = Some t -> nth_error progs i = Some pr ->
+        g_todo obj res t = [] -> g_res obj res t = snd (solo obj res fresh (snd pr) (fst pr)).
+Proof. exact results_sequential. Qed.
+
+(* ---- no race on library state ----
+   In every execution whose accesses to package-level state are at sites of the table regenerated from the source,
+   no two accesses of different goroutines to the same cell, one of them a write, are unordered (full strength: the
+   exception list known_cells is empty on the current tree, see C10_no_exceptions) *)
+Theorem C10_footprint_race_free :
+  forall tr : list event,
+    (forall e, In e tr -> In (e_site e) sites) ->
+    forall e1 e2, In e1 tr -> In e2 tr -> ~ In (a_cell (e_site e1)) known_cells -> ~ race e1 e2.
+Proof. exact (footprint_race_free known_cells sites globals_ok). Qed.
+
+(* what a common mutex buys: in every execution that respects mutual exclusion and in which each access holds the
+   mutexes its site names, the first goroutine releases the common mutex between the two accesses *)
+Theorem C10_common_lock_orders :
+  forall pre t1 s1 mid t2 s2 post,
+    wf_trace [] (pre ++ Acc t1 s1 :: mid ++ Acc t2 s2 :: post) = true ->
+    t1 <> t2 -> common_lock s1 s2 = true ->
+    exists m, has_rel t1 m mid = true /\ In m (map fst (a_held s1)) /\ In m (map fst (a_held s2)).
+Proof. exact common_lock_orders. Qed.
+
 Print Assumptions C10_metrics_totals_exact.
 Print Assumptions C10_monitor_totals_exact.
 Print Assumptions C10_counters_exact_always.
 Print Assumptions C10_max_load_compare_store_refuted.
 Print Assumptions C10_min_load_compare_store_refuted.
-
+Print Assumptions C10_results_sequential.
+Print Assumptions C10_footprint_race_free.
+Print Assumptions C10_common_lock_orders.
 (* the hypotheses are satisfiable by a non-trivial state: three goroutines record tokenizations of sizes 120, 7
    and 300 (the second with an error) and one records a parse; an interleaved schedule; all finish; the totals
    are the true ones *)
@@ -96,4 +134,47 @@ Example ex_totals :
   (m metrics_loc_tokenizeOperations, m metrics_loc_tokenizeErrors, m metrics_loc_totalQueryBytes,
    m metrics_loc_minQuerySize, m metrics_loc_maxQuerySize, m metrics_loc_parseOperations, m metrics_loc_statementsCreated)
   = (3, 1, 427, 7, 300, 1, 2).
+Proof. vm_compute. reflexivity. Qed.
+
+(* pools: an object is (visible state, stale garbage); Put clears the visible state only; computations read only
+   the visible state.  Two goroutines exchange objects through the pool and still compute their solo results. *)
+Definition ex_obj := (nat * nat)%type.
+Definition ex_eqv (a b : ex_obj) : Prop := fst a = fst b.
+Definition ex_reset (o : ex_obj) : ex_obj := (0%nat, snd o).
+Definition ex_work (k : nat) : list ex_obj -> nat -> list ex_obj * nat :=
+  fun h r => match h with
+             | o :: rest => ((fst o + k, snd o + 7)%nat :: rest, (r + fst o + k)%nat)
+             | [] => ([], r)
+             end.
+Definition ex_prog (k : nat) : list (cstep ex_obj nat) :=
+  [PoolGet ex_obj nat 0; Local ex_obj nat (ex_work k); PoolPut ex_obj nat 0; PoolGet ex_obj nat 0;
+   Local ex_obj nat (ex_work (k + 1)); AtomicAdd ex_obj nat 0 1; PoolPut ex_obj nat 0].
+Example ex_reset_fresh : forall o, ex_eqv (ex_reset o) (0%nat, 0%nat).
+Proof. reflexivity. Qed.
+Example ex_respects : forall k, prog_respects ex_obj nat ex_eqv (ex_prog k).
+Proof.
+  intros k f Hf. cbn in Hf.
+  assert (H : forall j, respects ex_obj nat ex_eqv (ex_work j)).
+  { intros j h h' r Hh. destruct Hh as [|a b l l' Hab Hl]; cbn; [split; auto|].
+    unfold ex_eqv in Hab. rewrite Hab. split; auto. constructor; auto. unfold ex_eqv. cbn. reflexivity. }
+  destruct Hf as [Hf|[Hf|[Hf|[Hf|[Hf|[Hf|[Hf|[]]]]]]]]; try discriminate; inversion Hf; apply H.
+Qed.
+Example ex_conc_run :
+  let c := grun ex_obj nat (0%nat, 0%nat) ex_reset
+             ({| pools := fun _ => []; counters := fun _ => 0 |}, [gstart ex_obj nat (ex_prog 3) 0%nat; gstart ex_obj nat (ex_prog 10) 0%nat])
+             [(0,0); (0,0); (0,0); (1,0); (1,0); (0,5); (1,0); (0,0); (1,0); (0,0); (0,0); (1,0); (1,0); (1,0)]%nat in
+  map (g_res ex_obj nat) (snd c) = [snd (solo ex_obj nat (0%nat, 0%nat) 0%nat (ex_prog 3)); snd (solo ex_obj nat (0%nat, 0%nat) 0%nat (ex_prog 10))]
+  /\ map (fun t => length (g_todo ex_obj nat t)) (snd c) = [0; 0]%nat
+  /\ map snd (pools ex_obj (fst c) 0%nat) <> [0; 0]%nat.   (* the pooled objects do carry stale garbage *)
+Proof. vm_compute. repeat split; discriminate. Qed.
+
+(* footprint: the table is not vacuous and the exception list is empty on this tree *)
+Example C10_no_exceptions : known_cells = [].
+Proof. reflexivity. Qed.
+Example ex_sites_nonempty : (100 <=? length sites)%nat = true.
+Proof. vm_compute. reflexivity. Qed.
+(* an unguarded map write next to a guarded read is rejected by the check *)
+Example ex_unguarded_rejected :
+  table_ok [] [ {| a_cell := 1%N; a_write := true; a_kind := KPlain; a_held := []; a_once := None; a_after := []; a_init := false |};
+                {| a_cell := 1%N; a_write := false; a_kind := KPlain; a_held := [(2%N, false)]; a_once := None; a_after := []; a_init := false |} ] = false.
 Proof. vm_compute. reflexivity. Qed.
